@@ -41,10 +41,7 @@ fn cell_rows(v: &V) -> J {
     J::Array(
         rows.iter()
             .map(|r| {
-                let (b, a) = match r.field("signal_id") {
-                    Some(V::TupleStruct(_, xs)) => (xs[0].as_i128().unwrap_or(-1) as i64, if let V::Char(c) = xs[1] { c as i64 } else { -1 }),
-                    _ => (-1, -1),
-                };
+                let (b, a) = r.field("signal_id").map(crate::special_msm::sig_of).unwrap_or((-1, -1));
                 json!([r.field("satellite_id").and_then(|x| x.as_i128()).unwrap_or(-1) as i64, b, a, row_digest(r)])
             })
             .collect(),
